@@ -5,7 +5,7 @@
                           as the map-based `an` when all keys are pairwise distinct (`wf`);
      (2) SoundnessInv.v   invariants P1-P6 of `anG` against the executable semantics;
      (3) SemDecideProofs.v  executable semantics <-> inductive specification (Semantics.v). *)
-From V Require Import CF.Soundness CF.AnalyzerG CF.SemDecide CF.SemDecideProofs CF.SoundnessInv CF.SoundnessMap.
+From V Require Import CF.Soundness CF.AnalyzerG CF.SemDecide CF.SemDecideProofs CF.SoundnessInv CF.SoundnessMap CF.SoundnessCases.
 
 Lemma nodupb_NoDup l : nodupb l = true -> NoDup l.
 Proof.
@@ -66,20 +66,8 @@ Print Assumptions C10_sound_repaired.
 Print Assumptions C11_getter_sound_repaired.
 
 (* ------------------------------------------------------------------ *)
-(* C11, no-fallthrough.  Proved so far, for every well-formed program (`ghost_sound`, third part, together
-   with `analyze_ghost`): the ghost analysis computes the same state as the map-based one, and every case
-   whose switch was analysed live and whose "stops" flag (computed from the ghost end reasons of its
-   top-level statements) is set cannot complete normally.  What is NOT yet proved is the last link of
-   layer 1 for this rule (SoundnessCases.v has the first half): that the "stops" flag in the ghost log equals
-   `any_stops` evaluated on the FINAL map (no later write touches the keys of the top-level statements of a
-   case) and that every switch/case has its log entries.  Both are checked on every generated program by `tools/cf.py`
-   (sub-command `ghost` of the extracted driver: states equal, logged flags = map, logged stops = any_stops).
-   The full statement, to be proved:
-
-     Theorem C11_case_sound_repaired : C11_case_holds repaired.
-
-   i.e.  forall p sw cs b, wf p -> sub_stmts (SSwitch sw cs) (p_body p) -> prog_enters p sw -> case_in b cs ->
-         any_stops (analyze repaired p) b = true -> ~ exec_l b Normal.                                        *)
+(* C11, no-fallthrough: layer 1 for this rule is SoundnessCases.v (the logged "stops" flag of a case is
+   `any_stops` on the FINAL map; every switch/case has its log entries). *)
 Theorem C11_case_sound_ghost (p : program) :
   wf p -> forall b, In (GCase b true true) (g_lg (analyzeG repaired p)) -> ~ exec_l b Normal.
 Proof.
@@ -88,4 +76,32 @@ Proof.
   rewrite (HC b Hin) in Hex. discriminate.
 Qed.
 
+Theorem C11_case_sound_repaired : C11_case_holds repaired.
+Proof.
+  intros p sw cs b Hwf Hsub Hent Hcase Hstops Hex.
+  pose proof (wf_keys p Hwf) as Hn. apply NoDup_cons_inv in Hn. destruct Hn as [Hpb Hnb].
+  destruct (analyze_ghost repaired p Hwf) as [Est _].
+  (* the log entries of the switch and of the case *)
+  destruct (switch_entries repaired) as [_ [HE _]].
+  destruct (HE _ _ Hsub sw cs eq_refl init_st) as [d [fl [Hsw Hcs]]]. destruct (Hcs b Hcase) as [stops Hb].
+  (* the logged flag is any_stops on the final map *)
+  destruct (case_flags_stable repaired) as [_ [HS _]].
+  pose proof (HS (p_body p) Hnb init_st (fresh_init _)) as Hcl.
+  assert (Hfinal : any_stops (analyze repaired p) b = stops).
+  { unfold analyze. rewrite Est. unfold analyzeG, block_endG.
+    destruct (anG_list repaired (p_body p) init_st) as [[y tops] lg] eqn:Eg. cbn [l_lg l_st g_st fst snd] in *.
+    destruct (Hcl b (negb d) stops Hb) as [Hin Hs]. rewrite <- Hs. apply any_stops_stable. intros t Ht.
+    unfold block_end. destruct (s_end (sc y)); apply iget_mark_neq; intros Eq; apply Hpb; rewrite <- Eq; apply (Hin t Ht). }
+  rewrite Hfinal in Hstops. subst stops.
+  (* an entered switch was analysed live *)
+  destruct (ghost_sound p Hnb) as [HC10 [_ HC]].
+  assert (Hlg : g_lg (analyzeG repaired p) = l_lg (anG_list repaired (p_body p) init_st)) by (unfold analyzeG; apply lg_block_end).
+  destruct d.
+  - assert (Hsw' : In (GStmt sw true fl) (g_lg (analyzeG repaired p))) by (rewrite Hlg; exact Hsw).
+    exfalso. apply (HC10 sw fl Hsw'). apply memN_In. apply prog_enters_iff. exact Hent.
+  - cbn [negb] in Hb. assert (Hb' : In (GCase b true true) (g_lg (analyzeG repaired p))) by (rewrite Hlg; exact Hb).
+    apply exec_l_iff_csem in Hex. cbn [cin] in Hex. rewrite (HC b Hb') in Hex. discriminate.
+Qed.
+
 Print Assumptions C11_case_sound_ghost.
+Print Assumptions C11_case_sound_repaired.
